@@ -7,5 +7,6 @@ CONSTANTS
     Compat <- Code_Compat
     LatestEdition <- Code_LatestEdition
     Forms <- AllFormsD
+    NightlyZero = "reject"
 INVARIANTS ConstructSound
 CHECK_DEADLOCK FALSE
